@@ -124,6 +124,9 @@ func (e *rxExp) capsAgainst(o *Obs) string {
 			return "absent-group-has-text"
 		}
 	}
+	if o.Prefilled {
+		return ""
+	}
 	for i := range o.Caps {
 		if i > last {
 			return "capture-index-beyond-the-groups"
